@@ -24,7 +24,8 @@ VARIABLES E,        \* length of the correct output of this run
           mustFlush,\* this API promises to flush the sink on success (LZMA, LZMA2 decoders, Stream::finish)
           pos,      \* bytes accepted by the sink so far
           flushedAt,\* pos at the last successful flush (-1: never)
-          faults,   \* number of calls (sink or source) that returned an error or Ok(0) on a non-empty buffer
+          faults,   \* 1000 per call (sink or source) that returned an error + 1 per sink write that answered Ok(0) to a
+                    \* non-empty buffer (not an error value: std's write_all makes it one, a writer that retries need not)
           bad,      \* sticky: some offered buffer was not the correct continuation of the output
           after,    \* calls made after the first failed call (shape tier)
           ret       \* "none" | "ok" | "err"
@@ -36,20 +37,20 @@ SinkWrite(len, r, good) ==
   /\ ret = "none" /\ len >= 0 /\ r >= -1 /\ r <= len
   /\ pos' = IF r > 0 THEN pos + r ELSE pos
   /\ bad' = (bad \/ ~good \/ pos + len > E)
-  /\ faults' = IF r = -1 \/ (r = 0 /\ len > 0) THEN faults + 1 ELSE faults
+  /\ faults' = IF r = -1 THEN faults + 1000 ELSE IF r = 0 /\ len > 0 THEN faults + 1 ELSE faults
   /\ after' = IF faults > 0 THEN after + 1 ELSE after
   /\ UNCHANGED <<E, mustFlush, flushedAt, ret>>
 
 SinkFlush(ok) ==
   /\ ret = "none"
   /\ flushedAt' = IF ok THEN pos ELSE flushedAt
-  /\ faults' = IF ok THEN faults ELSE faults + 1
+  /\ faults' = IF ok THEN faults ELSE faults + 1000
   /\ after' = IF faults > 0 THEN after + 1 ELSE after
   /\ UNCHANGED <<E, mustFlush, pos, bad, ret>>
 
 SrcRead(ok) ==
   /\ ret = "none"
-  /\ faults' = IF ok THEN faults ELSE faults + 1
+  /\ faults' = IF ok THEN faults ELSE faults + 1000
   /\ after' = IF faults > 0 THEN after + 1 ELSE after
   /\ UNCHANGED <<E, mustFlush, pos, flushedAt, bad, ret>>
 
@@ -58,7 +59,9 @@ Return(v) ==
   /\ UNCHANGED <<E, mustFlush, pos, flushedAt, faults, bad, after>>
 
 \* ---- contract ----
-ErrIffFault  == ret # "none" => ((ret = "err") = (faults > 0))
+\* success is impossible after a call that returned an error; an error needs a failed call or an Ok(0) answer
+ErrIffFault  == /\ (ret = "ok" => faults < 1000)
+                /\ (ret = "err" => faults > 0)
 PrefixAlways == ~bad /\ pos <= E
 CompleteOnOk == ret = "ok" => pos = E
 FlushOnOk    == (ret = "ok" /\ mustFlush) => flushedAt = E
